@@ -9,7 +9,7 @@
 From Coq Require Import ZArith QArith List Bool Lia.
 From VL Require Import Prelude.PyDict Model.Overhang Model.Divisor Model.HighestAverages
      Proofs.Dict_proofs Proofs.Overhang_proofs Proofs.HA_proofs Proofs.Divisor_proofs
-     Model.OverhangByC Proofs.OverhangByC_proofs Proofs.OverhangByC_ha_proofs.
+     Model.OverhangByC Proofs.OverhangByC_proofs Proofs.OverhangByC_ha_proofs Proofs.OverhangByC_total_proofs.
 Import ListNotations.
 Open Scope Z_scope.
 
@@ -202,6 +202,20 @@ Proof.
   unfold party_votes. rewrite map_map. simpl. exact Hn.
 Qed.
 
+(* ... and when all first round seats belong to tier parties, every party of the national distribution of the enlarged
+   house ends with EXACTLY its national seats: first round seats + seats gained over the constituencies = national seats
+   (the allocator hands out all of the difference: Proofs/OverhangByC_total_proofs.v) *)
+Theorem C15_byc_final_totals : forall dc a dn da fuel votes n prev adj gains res,
+  NoDup (map fst votes) -> votes <> [] -> wf_prev pk_eqb prev -> divisor_ok da ->
+  Forall (fun cv => Forall (fun pv : C * Q => (0 <= snd pv)%Q) (snd cv)) votes ->
+  adjusted_byc dc a (Ov_given dn) dn da fuel votes n prev = ASC adj (BP_ok gains) ->
+  constituency_evaluator pk_eqb (ha_eval dc) PK a votes n = Ok res ->
+  direct_in_tier pk_eqb res prev ->
+  exists nat, ha_eval dn (qtotals votes) (n + adj) = Ok nat /\
+    forall p np, In (PK p, np) nat ->
+      zsumf (fun c => direct pk_eqb prev c (PK p)) (cty_list votes prev) + party_gain gains p = np.
+Proof. exact adjusted_byc_totals. Qed.
+
 (* non-vacuity.  The repaired witness of d14cd5d: D'Hondt, seats N 2 / S 3, votes N {A 32, B 54}, S {A 300, B 30},
    first round seat S: B 1 -> 4 *)
 Definition ex_votes : list (Cty * list (C * Q)) :=
@@ -216,6 +230,12 @@ Proof.
   - split; [simpl; constructor; [simpl; tauto|constructor]|].
     constructor; [|constructor]. simpl. split; [split; [reflexivity|exact I]|constructor; [simpl; lia|constructor]].
 Qed.
+
+Example C15_byc_final_totals_example :
+  adjusted_byc d_hondt (App_dict [(1%positive, 2); (2%positive, 3)]) (Ov_given d_hondt) d_hondt d_hondt 400 ex_votes 5 ex_prev
+  = ASC 4 (BP_ok [(2%positive, 1%positive, 7); (1%positive, 2%positive, 1)]).
+Proof. vm_compute. reflexivity. Qed.
+(* house 9: A 7, B 2 nationally; A gains 7 seats (all in S), B keeps its first round seat in S and gains its second seat in N *)
 
 (* a Tie of the constituency evaluator is a key like a party.  Three parties level in both constituencies (one seat each):
    the national result carries the same Tie with both seats and the loop ends at once; two parties level: the national
@@ -258,6 +278,8 @@ Print Assumptions C15_byc_zero_needs_cover.
 Print Assumptions C15_byc_ha_fuel.
 Print Assumptions C15_byc_adjusted.
 Print Assumptions C15_byc_allocator_keeps_direct.
+Print Assumptions C15_byc_final_totals.
+Print Assumptions C15_byc_final_totals_example.
 Print Assumptions C15_byc_witness.
 Print Assumptions C15_byc_tie_key_met.
 Print Assumptions C15_byc_terminates_refuted.
